@@ -358,6 +358,16 @@ class InterpolatableFunction(ABC):
                 resShape = x.shape
             res = np.empty(resShape)
 
+            ## What the upper range takes from the interpolation is computed before
+            ## anything is evaluated directly: a direct evaluation of the lower range
+            ## can trigger an adaptive update of the table, which moves _rangeMax.
+            upperFromTable = None
+            if np.any(xUpper):
+                if self.extrapolationTypeUpper == EExtrapolationType.CONSTANT:
+                    upperFromTable = self.evaluateInterpolation(self._rangeMax)
+                elif self.extrapolationTypeUpper == EExtrapolationType.FUNCTION:
+                    upperFromTable = self.evaluateInterpolation(x[xUpper])
+
             ## Lower range
             if np.any(xLower):
                 match self.extrapolationTypeLower:
@@ -380,9 +390,9 @@ class InterpolatableFunction(ABC):
                     case EExtrapolationType.NONE:
                         res[xUpper, ...] = self._evaluateDirectly(x[xUpper])
                     case EExtrapolationType.CONSTANT:
-                        res[xUpper, ...] = self.evaluateInterpolation(self._rangeMax)
+                        res[xUpper, ...] = upperFromTable
                     case EExtrapolationType.FUNCTION:
-                        res[xUpper, ...] = self.evaluateInterpolation(x[xUpper])
+                        res[xUpper, ...] = upperFromTable
 
         return res
 
